@@ -16,7 +16,7 @@ import ast
 from .. import nodewalk, paths, typestate
 from ..model import AnalysisError, Project, self_attr, walk_no_nested
 from ..report import Result
-from .common import site, src
+from .common import site, src, cond_establishes_equal
 
 PROP = 'C16'
 LEVEL = 'other'
@@ -127,8 +127,8 @@ def check_combiner(w, r):
         if g0.recv_val != ('sub', ('self', 'in_edges'), ('const', 0)):
             bad1 = (pa, f'the pallet is taken from `{g0.recv}`, not from self.in_edges[0]')
         pallet = g0.result
-        tchk = [e for e in evs if e.kind == 'cond' and not e.d.get('synthetic') and 'flow_item_type' in e.text and 'Pallet' in e.text]
-        if not tchk or tchk[0].polarity is not False or evs.index(tchk[0]) < evs.index(g0):
+        tchk = [e for e in evs if cond_establishes_equal(e, 'Pallet') is not None and 'flow_item_type' in e.text]
+        if not tchk or cond_establishes_equal(tchk[0], 'Pallet') is not True or evs.index(tchk[0]) < evs.index(g0):
             bad1 = bad1 or (pa, 'the object taken from in_edges[0] is not checked to be a Pallet before it is used')
         adds = [e for e in evs if e.kind == 'pcall' and e.name == 'add_item']
         ing = gets[1:]
@@ -150,7 +150,7 @@ def check_combiner(w, r):
                 bad3 = (pa, f'the ingredient is taken from `{g.recv}`: not the edge recorded for the chosen token (index list [tokens.index(chosen)])')
             # item type check between get and add_item
             seg = evs[evs.index(g):evs.index(a)]
-            if not any(e.kind == 'cond' and not e.d.get('synthetic') and 'flow_item_type' in e.text and "'item'" in e.text and e.polarity is False for e in seg):
+            if not any(cond_establishes_equal(e, 'item') is True and 'flow_item_type' in e.text for e in seg):
                 bad1 = bad1 or (pa, 'an ingredient is packed without checking that it is an item (a pallet could be nested)')
         # bookkeeping pops: per ingredient two pops with the same index value
         pops = [e for e in evs if e.kind == 'lop' and e.op == 'pop']
